@@ -236,6 +236,13 @@ impl<H: Hasher> BatchMerkleProof<H> {
                 i += 1;
             }
         }
+
+        // every node of the proof must have been used: surplus nodes would be ignored otherwise, and
+        // two different proofs would open the same leaves against the same root
+        if proof_pointers.iter().zip(self.nodes.iter()).any(|(&used, nodes)| used != nodes.len()) {
+            return Err(MerkleTreeError::InvalidProof);
+        }
+
         v.remove(&1).ok_or(MerkleTreeError::InvalidProof)
     }
 
